@@ -357,12 +357,12 @@ Lemma hex_macro_t_fst : forall s stt rr rep_rec rep_n rec k, fst (hex_macro_t s 
 Proof.
   induction s as [|ch r IH]; intros stt rr rep_rec rep_n rec k; cbn [hex_macro_t hex_macro]; [reflexivity|].
   destruct stt.
-  - destruct ((ch =? 59) && rr); [apply IH|]. destruct (ch =? 33); apply IH.
+  - destruct ((ch =? 59) && rr); [destruct (push_group rec rep_rec rep_n); [apply IH|reflexivity]|]. destruct (ch =? 33); apply IH.
   - destruct (hex_val c); [|reflexivity]. destruct (hex_val (to_upper ch)); [|reflexivity]. destruct rr; apply IH.
   - destruct (is_digit ch); [apply IH|]. destruct (ch =? 59); [apply IH|reflexivity].
 Qed.
 (* "!3000;41;" : 9 characters, 3009 iterations *)
-Lemma hexmacro_refuted_l : exists s, zlen s < 64 /\ 300 * zlen s < snd (hex_macro_t s HFirst false [] 0 [] 0).
+Lemma hexmacro_refuted_l : exists s, zlen s < 64 /\ 300 * zlen s < snd (hex_macro_t_before_fix s HFirst false [] 0 [] 0).
 Proof. exists [33; 51; 48; 48; 48; 59; 52; 49; 59]. vm_compute. split; reflexivity. Qed.
 
 (* ---- macro recursion ---------------------------------------------------------------------------------------------------------------------------- *)
